@@ -61,7 +61,7 @@ def make_case(rng, integ: str):
                 seen.add(T.norm_stmt(s))
                 out.append(s)
         stmts = out
-    ns = workloads.bindings(rng, v.ns if rng.random() < .6 else None, k=rng.randint(1, 8))
+    ns = workloads.bindings(rng, v.ns if rng.random() < .6 else None, k=rng.randint(1, 8), odd_labels=integ == "generic")
     pe = rng.random() < .85
     np_, nn, nd = gen.need_of(stmts, phys, pe, [("ns", a, b) for a, b in ns])
     small = rng.random() < .6
